@@ -99,3 +99,59 @@ def big(rng, n, pattern=None):
 
 def signed(rng, v):
     return v if rng.randrange(2) else -v
+
+
+# ---------------------------------------------------------------------------------------------
+# op-signature-driven boundary augmentation (applied by check.py to the public-API ops of some streams)
+
+BOUNDARY = sorted({(1 << k) + d for k in (7, 8, 15, 16, 31, 32, 63, 64, 127, 128) for d in (-1, 0, 1)} | {0, 1, 2})
+AUGMENT_STREAMS = {"C01", "C02", "C03", "C05", "C07", "C08", "C11", "C13", "C19"}
+AUGMENT_SKIP = ("shl", "from_f", "to_f", "set_bit", "bit ", "monty_modpow", "plain_modpow", "high_bits")   # cost hazards, non-value arguments, hook ops with preconditions
+
+def _is_bigtok(t):
+    import re
+    return re.fullmatch(r"[+\-0]?(?:[0-9a-f]+(?:,[0-9a-f]+)*|\.)", t) is not None
+
+def augment_boundaries(lines, rng, per_op=48):
+    """For every public-API op (`u.*` / `i.*`) of the allow-listed streams, add requests whose big operands are
+    primitive-type boundary values (2^k, 2^k ± 1 for k = 7…128, all signs for BigInt): native fast paths for
+    values that fit u64/i64/u128/i128 must agree with the big path, including MIN / -1, gcd(MIN, 0), …
+    Operand positions are inferred from the generator's own requests: a position is a big operand iff some request
+    of that op has a multi-limb, empty or signed token there; all other tokens are copied from a sample request."""
+    groups = {}
+    for l in lines:
+        t = l.split()
+        if len(t) < 3 or t[0] not in AUGMENT_STREAMS or not (t[1].startswith("u.") or t[1].startswith("i.")):
+            continue
+        if any(s in (t[1] + " ") for s in AUGMENT_SKIP) or ("pow" in t[1] and "modpow" not in t[1]):
+            continue
+        groups.setdefault((t[0], t[1], len(t)), []).append(t)
+    out = []
+    for (stream, op, n), samples in sorted(groups.items()):
+        signed = op.startswith("i.")
+        bigpos = []
+        for i in range(2, n):
+            col = [s[i] for s in samples]
+            if not all(_is_bigtok(c) for c in col):
+                continue
+            if any(("," in c) or c == "." or c == "0." or c[0] in "+-" for c in col):
+                bigpos.append(i)
+        if not bigpos or len(bigpos) > 3:
+            continue
+        tmpl = samples[rng.randrange(len(samples))]
+        cnt = 0
+        tries = 0
+        while cnt < per_op and tries < per_op * 4:
+            tries += 1
+            t = list(tmpl)
+            for i in bigpos:
+                v = BOUNDARY[rng.randrange(len(BOUNDARY))] if rng.randrange(5) else rng.choice([0, 1, 2, 3])
+                if signed and tmpl[i][:1] in "+-0" and (tmpl[i][:1] != "0" or tmpl[i] == "0."):
+                    t[i] = wi(-v if rng.randrange(2) else v)
+                elif any(s[i][:1] in "+-" or s[i] == "0." for s in samples):
+                    t[i] = wi(-v if rng.randrange(2) else v)
+                else:
+                    t[i] = wu(v)
+            out.append(" ".join(t))
+            cnt += 1
+    return out
